@@ -7,7 +7,8 @@
 From Coq Require Import ZArith QArith Qcanon List Bool Reals PrimFloat.
 From SVP Require Import Base.Num Base.Cplx Base.Poly Base.FloatK Base.BigF
      Model.Bezier Model.BezierN Model.Arc Model.Xform
-     Proofs.Xform Proofs.XformJoints Proofs.XformArcAlg Proofs.XformArcR Proofs.XformRefute.
+     Proofs.ArcR Proofs.ArcDeriv Proofs.Xform Proofs.XformJoints Proofs.XformArcAlg Proofs.XformArcR
+     Proofs.XformRefute.
 Import ListNotations.
 
 (* ================================================================== *)
@@ -92,9 +93,9 @@ Section C10_generic.
       exists s', seg_scale N T sx sy origin (SBez p) = XOk s' /\
                  seg_point N T s' t = scale_point N sx sy origin (seg_point N T (SBez p) t).
   Proof. exact (seg_scale_bez N OK). Qed.
-  Theorem C10_seg_transform : forall (T : NumT K) eig (M : Mat3 K) p t, wf_bez p ->
+  Theorem C10_seg_transform : forall (T : NumT K) tfx eig (M : Mat3 K) p t, wf_bez p ->
       mat_is_identity N M = false ->
-      exists s', seg_transform N T eig M (SBez p) = XOk s' /\
+      exists s', seg_transform N T tfx eig M (SBez p) = XOk s' /\
                  seg_point N T s' t = tf_point N M (seg_point N T (SBez p) t).
   Proof. exact (seg_transform_bez N OK). Qed.
 
@@ -147,10 +148,79 @@ Proof. exact arc_scale_uniform_point. Qed.
 Theorem C10_arc_nonuniform_refused : forall sx sy origin (Q : ArcP R), sy <> sx ->
     arc_scale NumR NumTR sx (Some sy) origin Q = XRefused.
 Proof. exact arc_scale_nonuniform_refused. Qed.
+
+(* ---- transform() of an Arc, REPAIRED branch (arc_transform_fixed; variant flag tfx = true) ---- *)
+(* the image of the ellipse parameterisation: for M = A.R(phi).diag(rx,ry) with det M <> 0,
+   with rx' = sqrt(larger eigenvalue of M.M^T), ry' = |det M|/rx', phi' = atan2(q,(p-r)/2)/2
+   (what the code computes), s = sign det M and alpha = img_alpha:
+       M.u(theta) = R(phi').diag(rx', ry').u(s*theta + alpha)      for every theta *)
+Theorem C10_ellipse_image : forall m00 m01 m10 m11, m00 * m11 - m01 * m10 <> 0 -> forall theta,
+    m00 * cos theta + m01 * sin theta
+      = ie_nrx m00 m01 m10 m11 * cos (ie_psi m00 m01 m10 m11)
+          * cos (ie_sgn m00 m01 m10 m11 * theta + img_alpha m00 m01 m10 m11)
+        - ie_nry m00 m01 m10 m11 * sin (ie_psi m00 m01 m10 m11)
+          * sin (ie_sgn m00 m01 m10 m11 * theta + img_alpha m00 m01 m10 m11)
+    /\ m10 * cos theta + m11 * sin theta
+      = ie_nrx m00 m01 m10 m11 * sin (ie_psi m00 m01 m10 m11)
+          * cos (ie_sgn m00 m01 m10 m11 * theta + img_alpha m00 m01 m10 m11)
+        + ie_nry m00 m01 m10 m11 * cos (ie_psi m00 m01 m10 m11)
+          * sin (ie_sgn m00 m01 m10 m11 * theta + img_alpha m00 m01 m10 m11).
+Proof. exact ie_image_param. Qed.
+Theorem C10_ellipse_image_sign : forall m00 m01 m10 m11, m00 * m11 - m01 * m10 <> 0 ->
+    0 < ie_nrx m00 m01 m10 m11 /\ 0 < ie_nry m00 m01 m10 m11 /\
+    ((ie_sgn m00 m01 m10 m11 = 1 /\ 0 < ie_dM m00 m01 m10 m11) \/
+     (ie_sgn m00 m01 m10 m11 = -1 /\ ie_dM m00 m01 m10 m11 < 0)).
+Proof.
+  intros m00 m01 m10 m11 H.
+  exact (conj (ie_nrx_pos m00 m01 m10 m11 H) (conj (ie_nry_pos m00 m01 m10 m11 H) (ie_sgn_cases m00 m01 m10 m11 H))).
+Qed.
+
+(* the constructor turns the end-point form of the arc c + R(phi).diag(rx,ry).u(a + t*delta)
+   back into that parameterisation (flags from delta; outside the np.isclose snap) *)
+Theorem C10_arc_init_roundtrip_partial : forall (c : Cplx R) rot rx ry a delta large sweep,
+    0 < rx -> 0 < ry -> delta <> 0 -> -360 < delta < 360 ->
+    (sweep = true <-> 0 < delta) ->
+    (180 < Rabs delta -> large = true) -> (Rabs delta < 180 -> large = false) ->
+    let cphi := cos (arc_phi NumTR rot) in let sphi := sin (arc_phi NumTR rot) in
+    let st := ell c rx ry cphi sphi a in
+    let en := ell c rx ry cphi sphi (a + delta * PI / 180) in
+    snap_inactive st (rx, ry) en rot false ->
+    forall t, arc_point NumR NumTR (arc_init NumR NumTR st (rx, ry) rot large sweep en) t
+              = ell c rx ry cphi sphi (a + t * (delta * PI / 180)).
+Proof. exact arc_init_roundtrip'. Qed.
+
+(* transform(arc, tf) for every invertible tf (rotations, scales, reflections, shears, products):
+   an Arc with the same large_arc flag, sweep flipped iff det < 0, and
+       transform(arc, tf).point(t) = tf.(arc.point(t))   for every t.
+   _partial: under snap_inactive of the ORIGINAL arc (the hypothesis of C04_point0_partial:
+   inside the np.isclose snap the arc does not even start at its own start point) *)
+Theorem C10_arc_transform_partial : forall start radius end_ rotation large sweep,
+    start <> end_ -> fst radius <> 0 -> snd radius <> 0 ->
+    snap_inactive start radius end_ rotation false ->
+    forall a00 a01 a02 a10 a11 a12 r20 r21 r22,
+    a00 * a11 - a01 * a10 <> 0 ->
+    let M : Mat3 R := ((a00, a01, a02), (a10, a11, a12), (r20, r21, r22)) in
+    let P := arc_init NumR NumTR start radius rotation large sweep end_ in
+    mat_is_identity NumR M = false ->
+    exists Q, arc_transform_fixed NumR NumTR M P = SArc Q /\
+      a_large Q = large /\
+      a_sweep Q = (if Rlt_b 0 (a00 * a11 - a01 * a10) then sweep else negb sweep) /\
+      forall t, arc_point NumR NumTR Q t = tf_point NumR M (arc_point NumR NumTR P t).
+Proof. exact arc_transform_fixed_commutes. Qed.
+(* the identity short-cut and the singular case of the repaired branch *)
+Theorem C10_arc_transform_identity : forall (M : Mat3 R) (P : ArcP R),
+    mat_is_identity NumR M = true ->
+    arc_transform_fixed NumR NumTR M P = SArc P /\ forall z, tf_point NumR M z = z.
+Proof. exact arc_transform_fixed_identity. Qed.
+Theorem C10_arc_transform_singular : forall a00 a01 a02 a10 a11 a12 r20 r21 r22 (P : ArcP R),
+    let M : Mat3 R := ((a00, a01, a02), (a10, a11, a12), (r20, r21, r22)) in
+    a00 * a11 - a01 * a10 = 0 ->
+    arc_transform_fixed NumR NumTR M P = SBez [tf_point NumR M (a_start P); tf_point NumR M (a_end P)].
+Proof. exact arc_transform_fixed_singular. Qed.
 Local Close Scope R_scope.
 Local Open Scope nat_scope.
 
-(* transform() of an Arc: the model as coded is wrong in exact arithmetic
+(* transform() of an Arc, PINNED branch (variant flag tfx = false): the model as coded is wrong in exact arithmetic
    (120-bit evaluation, valid eigen-decomposition in every sign/order convention):
    sweep rule, rotation sign, arc's own rotation ignored *)
 Theorem C10_arc_transform_refuted :
@@ -168,6 +238,15 @@ Proof.
   exact (conj arc_transform_sweep_wrong
               (conj arc_transform_rotation_sign_lost arc_transform_ignores_rotation)).
 Qed.
+
+(* the repaired branch on the refutation witnesses (and on degenerate ones: a circle under a
+   rotation, a reflection), 120-bit evaluation: agrees to 2^-50 *)
+Theorem C10_arc_transform_fixed_on_witnesses :
+  (arc_tf_fixed_agrees M_w1 P_quarter = true /\ arc_tf_fixed_agrees M_w2 P_quarter = true
+   /\ arc_tf_fixed_agrees M_w3 P_rot45 = true)
+  /\ (arc_tf_fixed_agrees (bmat (bq 3 5) (bq (-4) 5) (bq 4 5) (bq 3 5)) P_quarter = true
+      /\ arc_tf_fixed_agrees (bmat (bz 1) (bz 0) (bz 0) (bz (-1))) P_rot45 = true).
+Proof. exact (conj arc_transform_fixed_on_witnesses arc_transform_fixed_degenerate). Qed.
 
 (* ================================================================== *)
 (* exact joints: arbitrary segment and point types, no algebraic laws   *)
@@ -267,14 +346,14 @@ Section C10_paths.
     exact (path_closed_preserved N false (seg_rotate N T degs cs (Some origin)) path res Hpath Hne H _
                                  (rotate_local N T degs cs origin) eq_refl).
   Qed.
-  Theorem C10_transform_closed : forall eig (M : Mat3 K),
-      path_transform N T false eig M path = XOk res -> closed path -> closed res.
+  Theorem C10_transform_closed : forall tfx eig (M : Mat3 K),
+      path_transform N T false tfx eig M path = XOk res -> closed path -> closed res.
   Proof.
-    intros eig M H. unfold path_transform in H.
+    intros tfx eig M H. unfold path_transform in H.
     destruct (mat_is_identity N M) eqn:Hid.
     - injection H as <-. exact (fun c => c).
-    - exact (path_closed_preserved N false (seg_transform N T eig M) path res Hpath Hne H _
-                                   (transform_local N T eig M Hid) eq_refl).
+    - exact (path_closed_preserved N false (seg_transform N T tfx eig M) path res Hpath Hne H _
+                                   (transform_local N T tfx eig M Hid) eq_refl).
   Qed.
 End C10_paths.
 
@@ -320,6 +399,15 @@ Example C10_nonvacuous_joints :
   path_closed NumF tri = true /\ length (joints false tri) = 2%nat /\ length (joints true tri) = 3%nat.
 Proof. repeat split; vm_compute; reflexivity. Qed.
 
+(* the hypotheses of C10_arc_transform_partial are satisfiable: the upper unit half circle
+   Arc(1, 1+1j, 0, 0, 1, -1) under tf = [[1,2,3],[1,1,-1],[0,0,1]] (det = -1 < 0, tf00*tf11 > 0:
+   the matrix of the refutation witness W1) — the image is an Arc, large_arc kept, sweep FLIPPED *)
+Example C10_nonvacuous_arc_transform :
+  exists Q, arc_transform_fixed NumR NumTR ((1, 2, 3), (1, 1, -1), (0, 0, 1))%R
+                                (arc_init NumR NumTR Wstart Wrad 0%R false true Wend) = SArc Q
+            /\ a_large Q = false /\ a_sweep Q = false.
+Proof. exact arc_transform_fixed_nonvacuous. Qed.
+
 Print Assumptions C10_bern_affine_all.
 Print Assumptions C10_translate.
 Print Assumptions C10_translate_all_degrees.
@@ -342,6 +430,13 @@ Print Assumptions C10_arc_rotate.
 Print Assumptions C10_arc_uniform_scale.
 Print Assumptions C10_arc_nonuniform_refused.
 Print Assumptions C10_arc_transform_refuted.
+Print Assumptions C10_ellipse_image.
+Print Assumptions C10_ellipse_image_sign.
+Print Assumptions C10_arc_init_roundtrip_partial.
+Print Assumptions C10_arc_transform_partial.
+Print Assumptions C10_arc_transform_identity.
+Print Assumptions C10_arc_transform_singular.
+Print Assumptions C10_arc_transform_fixed_on_witnesses.
 Print Assumptions C10_joints_synced.
 Print Assumptions C10_joints_synced_as_coded.
 Print Assumptions C10_segmentwise.
